@@ -13,7 +13,7 @@ variable {K : Type} [Field K] [LinearOrder K] [IsStrictOrderedRing K]
 
 /-- BoundingBox.includes -/
 
-def bbox_includes (l1 b1 r1 t1 px py : K) : Bool :=
+@[gen_def] def bbox_includes (l1 b1 r1 t1 px py : K) : Bool :=
   if l1 ≥ px then
     if r1 ≤ px then
       if b1 ≥ py then
@@ -31,7 +31,7 @@ def bbox_includes (l1 b1 r1 t1 px py : K) : Bool :=
 
 /-- BoundingBox.overlaps -/
 
-def bbox_overlaps (l1 b1 r1 t1 l2 b2 r2 t2 : K) : Bool :=
+@[gen_def] def bbox_overlaps (l1 b1 r1 t1 l2 b2 r2 t2 : K) : Bool :=
   if l2 > r1 then
     false
   else
@@ -49,16 +49,16 @@ def bbox_overlaps (l1 b1 r1 t1 l2 b2 r2 t2 : K) : Bool :=
 
 /-- BoundingBox.area -/
 
-def bbox_area_v (l1 b1 r1 t1 : K) : K :=
+@[gen_def] def bbox_area_v (l1 b1 r1 t1 : K) : K :=
   ((r1 - l1) * (t1 - b1))
 
-def bbox_area (l1 b1 r1 t1 : K) : List K :=
+@[gen_def] def bbox_area (l1 b1 r1 t1 : K) : List K :=
   [bbox_area_v l1 b1 r1 t1]
 
 
 /-- BoundingBox.extend(Point) on a non-empty box -/
 
-def bbox_extend_point (l1 b1 r1 t1 px py : K) : List K :=
+@[gen_def] def bbox_extend_point (l1 b1 r1 t1 px py : K) : List K :=
   if px < l1 then
     if py < b1 then
       if px > r1 then
@@ -109,19 +109,19 @@ def bbox_extend_point (l1 b1 r1 t1 px py : K) : List K :=
 
 /-- BoundingBox.extend(Point) on an empty box -/
 
-def bbox_extend_first_0 (px py : K) : K :=
+@[gen_def] def bbox_extend_first_0 (px py : K) : K :=
   px
 
-def bbox_extend_first_1 (px py : K) : K :=
+@[gen_def] def bbox_extend_first_1 (px py : K) : K :=
   py
 
-def bbox_extend_first_2 (px py : K) : K :=
+@[gen_def] def bbox_extend_first_2 (px py : K) : K :=
   px
 
-def bbox_extend_first_3 (px py : K) : K :=
+@[gen_def] def bbox_extend_first_3 (px py : K) : K :=
   py
 
-def bbox_extend_first (px py : K) : List K :=
+@[gen_def] def bbox_extend_first (px py : K) : List K :=
   [bbox_extend_first_0 px py, bbox_extend_first_1 px py, bbox_extend_first_2 px py, bbox_extend_first_3 px py]
 
 
